@@ -4,11 +4,11 @@ patch.diff (must apply to /repo's HEAD), demo.py, notes.md (the author's descrip
 manifest, what was run to confirm it, which checks report it)."""
 import json, os, re, shutil, subprocess, sys
 
-STAGE, OUT = "/tmp/stage", os.path.join(os.path.dirname(os.path.dirname(os.path.abspath(__file__))), "seeded")
+OUT = os.path.join(os.path.dirname(os.path.dirname(os.path.abspath(__file__))), "seeded")
 os.makedirs(OUT, exist_ok=True)
-for prop in sorted(os.listdir(STAGE)):
-    if not re.fullmatch(r"C\d\d", prop):
-        continue
+ROUNDS = [("/tmp/stage", "", ""), ("/tmp/stage2", "r2", "r2-"), ("/tmp/stage3", "r3", "r3-")]  # staging dir, result-tag prefix, id prefix
+JOBS = [(st, rp, ip, prop) for st, rp, ip in ROUNDS if os.path.isdir(st) for prop in sorted(os.listdir(st)) if re.fullmatch(r"C\d\d", prop)]
+for STAGE, RP, IP, prop in JOBS:
     for m in ("m1", "m2"):
         d = os.path.join(STAGE, prop, m)
         if not os.path.exists(os.path.join(d, "patch.diff")):
@@ -20,7 +20,7 @@ for prop in sorted(os.listdir(STAGE)):
         flaky = [t for t in missing if "test_nullable[" in t or "test_check_nullable_field_strategy" in t]
         suite_ok = bool(ms) and len(missing) == len(flaky)
         applies = subprocess.run(["git", "-C", "/repo", "apply", "--check", os.path.join(d, "patch.diff")], capture_output=True).returncode == 0
-        tag = f"{prop}{m}"
+        tag = f"{RP}{prop}{m}"
         res = os.path.join(STAGE, "res", tag)
         caught = {}
         if os.path.isdir(res):
@@ -30,10 +30,13 @@ for prop in sorted(os.listdir(STAGE)):
                     v = re.findall(r"template=(\S+) assertion=(\S+)", txt)
                     if "VIOLATION property=" in txt:
                         caught[f[:-4]] = sorted({f"{t} {a}" for t, a in v})[:6]
+        if demo_ok and suite_ok and not applies:
+            print(f"{tag}: confirmed but the patch no longer applies to /repo HEAD (superseded by a repair) - skipped")
+            continue
         if not (demo_ok and suite_ok):
             print(f"{tag}: not confirmed yet (demo_ok={demo_ok} suite={'ok' if suite_ok else conf.strip().splitlines()[-1:] }) - skipped")
             continue
-        dst = os.path.join(OUT, f"{prop}-{m}")
+        dst = os.path.join(OUT, f"{IP}{prop}-{m}")
         os.makedirs(dst, exist_ok=True)
         for f in ("patch.diff", "demo.py", "notes.md"):
             if os.path.exists(os.path.join(d, f)):
@@ -44,7 +47,7 @@ for prop in sorted(os.listdir(STAGE)):
         if mm:
             needs = " ".join(mm.group(2).split())[:700]
         fams = ", ".join(sorted(set(t.split("[")[0] for t in flaky))) or "none"
-        meta = dict(property=prop, id=f"{prop}-{m}", breaks=prop, needs_to_manifest=needs or "see notes.md",
+        meta = dict(property=prop, id=f"{IP}{prop}-{m}", breaks=prop, needs_to_manifest=needs or "see notes.md",
                     confirmed=dict(demo="exit 0 on a clean scratch worktree, exit 1 with the patch applied (tools/confirm_mutant.sh)",
                                    suite=f"pinned test command (one serial pytest process) with the patch: {ms.group(2)} tests pass, every BASELINE stable_pass test passes except "
                                          f"{len(flaky)} test(s) of the families that also fail on the unchanged tree ({fams})",
